@@ -67,6 +67,10 @@ fn check(scn: &Scenario, rep: &mut Report) {
     };
     rep.add("handle_invocations", out.log.len() as u64);
     rep.add("server_polls", out.total_polls as u64);
+    if scn.wake {
+        rep.count("wake_driven_cases");
+        rep.add("wake_driven_waker_firings", out.wakes);
+    }
     rep.add("in_handle_arrivals", out.applied.iter().filter(|a| a.2).count() as u64);
     rep.add("oneway_calls", scn.conns.iter().flat_map(|c| c.calls.iter()).filter(|c| c.oneway).count() as u64);
     let mut stats = std::collections::BTreeMap::new();
@@ -106,6 +110,7 @@ pub fn run(cfg: &Cfg) -> Report {
             scn.conns.push(c);
         }
         let eof: Vec<bool> = (0..nconn).map(|_| rng.chance(1, 3)).collect();
+        scn.wake = k % 2 == 1;
         let ch = chains(&scn, &eof);
         let total = count_interleavings(&ch.iter().map(|c| c.len()).collect::<Vec<_>>());
         let cap = if miri { 6 } else { 2000 };
@@ -142,6 +147,7 @@ pub fn run(cfg: &Cfg) -> Report {
         let eof: Vec<bool> = (0..nconn).map(|_| rng.chance(1, 3)).collect();
         let ch = chains(&scn, &eof);
         let order = random_interleaving(&ch, &mut rng);
+        scn.wake = rng.chance(1, 3);
         let style = rng.below(3);
         scn.steps = order
             .into_iter()
